@@ -22,6 +22,7 @@ def check(chk, thorough=False):
     chk.run('C16.i', 'R-ITER', 'every confidentiality block of a bundle is verified: the loop over them is not invalidated when an accepted block is removed (= C12.e)', lambda ob: __import__('sa.props.c12', fromlist=['c12e']).c12e(tree, ob), floor=2)
     chk.run('C16.j', 'R-GUARD', 'a well-formed block with several targets is not refused: result ids are checked per target (= C12.g)', lambda ob: __import__('sa.props.c12', fromlist=['c12g']).c12g(tree, ob), floor=2)
     chk.run('C16.k', 'R-NOPATH', 'a confidentiality block that cannot be decoded is found (and fails the bundle): every block is indexed under its type code (= C12.j)', lambda ob: __import__('sa.props.c12', fromlist=['c12j']).c12j(tree, ob), floor=2)
+    chk.run('C16.l', 'R-SCHEMA', 'a null in the place of an endpoint ID is refused on decode (the AAD re-encodes the primary block and the security source: null would re-encode as dtn:none and still decrypt) (= C08.e clause)', lambda ob: __import__('sa.props.c08', fromlist=['eid_null_refused']).eid_null_refused(tree, ob), floor=1)
     chk.run('C16.d', 'R-FLOW', 'BCB uses the same external AAD construction as BIB (= C03.a/b on apply_bcb)', lambda ob: (c03a(tree, ob, 'apply_bcb'), c03b(tree, ob)), floor=8)
 
 
